@@ -30,13 +30,28 @@ func lookedUpFieldsKindChecked(r *core.Run, rels []string, floor int) {
 			if fd.Body == nil {
 				return
 			}
+			// one-to-one definitions: x := e, x = e, var x = e
+			oneDef := func(n ast.Node) (lhs ast.Expr, rhs ast.Expr, ok bool) {
+				switch d := n.(type) {
+				case *ast.AssignStmt:
+					if len(d.Lhs) == 1 && len(d.Rhs) == 1 {
+						return d.Lhs[0], d.Rhs[0], true
+					}
+				case *ast.ValueSpec:
+					if len(d.Names) == 1 && len(d.Values) == 1 {
+						return d.Names[0], d.Values[0], true
+					}
+				}
+				return nil, nil, false
+			}
 			// x := <…>.ByName(…)
 			fields := map[types.Object]bool{}
 			ast.Inspect(fd.Body, func(n ast.Node) bool {
-				as, ok := n.(*ast.AssignStmt)
-				if !ok || len(as.Lhs) != 1 || len(as.Rhs) != 1 {
+				l, rh, ok := oneDef(n)
+				if !ok {
 					return true
 				}
+				as := struct{ Lhs, Rhs []ast.Expr }{[]ast.Expr{l}, []ast.Expr{rh}}
 				c, ok := core.Unparen(as.Rhs[0]).(*ast.CallExpr)
 				if !ok {
 					return true
@@ -72,14 +87,14 @@ func lookedUpFieldsKindChecked(r *core.Run, rels []string, floor int) {
 			results := map[types.Object]types.Object{} // v -> x
 			resultAt := map[types.Object][]ast.Node{}
 			ast.Inspect(fd.Body, func(n ast.Node) bool {
-				as, ok := n.(*ast.AssignStmt)
-				if !ok || len(as.Lhs) != 1 || len(as.Rhs) != 1 {
+				l, rh, ok := oneDef(n)
+				if !ok {
 					return true
 				}
-				if x, ok := isTypeCall(as.Rhs[0]); ok {
-					if id, ok := as.Lhs[0].(*ast.Ident); ok && info.ObjectOf(id) != nil {
+				if x, ok := isTypeCall(rh); ok {
+					if id, ok := l.(*ast.Ident); ok && info.ObjectOf(id) != nil {
 						results[info.ObjectOf(id)] = x
-						resultAt[info.ObjectOf(id)] = append(resultAt[info.ObjectOf(id)], as)
+						resultAt[info.ObjectOf(id)] = append(resultAt[info.ObjectOf(id)], n)
 					}
 				}
 				return true
